@@ -256,6 +256,10 @@ impl Node {
             let shared = node.shared();
             let mut http = ServerConfig::default().http;
             http.address = format!("{}:0", next_loopback());
+            // access tokens are stamped with the owned clock (a fixed instant in the past) but validated by
+            // the JWT library against the operating system's clock: with the default one-hour expiry every
+            // token would already be expired
+            http.jwt.access_token_expiry = iggy::utils::expiry::IggyExpiry::NeverExpire;
             let addr =
                 node.block_on(async move { server::http::http_server::start(http, shared).await });
             node.http_addr = Some(addr);
